@@ -524,6 +524,8 @@ class _Inliner:
         e: Optional[ast.expr] = None
         if len(body) == 1 and isinstance(body[0], ast.Return) and body[0].value is not None:
             e = body[0].value
+            if boolean and isinstance(e, ast.Call) and dotted(e.func) == 'bool' and len(e.args) == 1 and not e.keywords:
+                e = e.args[0]
         elif len(body) == 2 and isinstance(body[0], ast.If) and not body[0].orelse and len(body[0].body) == 1 and \
                 isinstance(body[0].body[0], ast.Return) and isinstance(body[1], ast.Return) and \
                 body[0].body[0].value is not None and body[1].value is not None:
@@ -547,10 +549,28 @@ class _Inliner:
     def _ifexp(test: ast.expr, a: ast.expr, b: ast.expr, boolean: bool) -> ast.expr:
         def const(x: ast.expr, v: bool) -> bool:
             return isinstance(x, ast.Constant) and x.value is v
-        if boolean and const(a, True) and const(b, False):
-            return test
-        if boolean and const(a, False) and const(b, True):
-            return ast.copy_location(ast.UnaryOp(op=ast.Not(), operand=test), test)
+
+        def unbool(x: ast.expr) -> ast.expr:       # bool(X) in a boolean context is X
+            if isinstance(x, ast.Call) and dotted(x.func) == 'bool' and len(x.args) == 1 and not x.keywords:
+                return x.args[0]
+            return x
+
+        def neg(x: ast.expr) -> ast.expr:
+            return ast.copy_location(ast.UnaryOp(op=ast.Not(), operand=x), x)
+        if boolean:
+            a, b = unbool(a), unbool(b)
+            if const(a, True) and const(b, False):
+                return test
+            if const(a, False) and const(b, True):
+                return neg(test)
+            if const(a, True):        # True if c else B  ==  c or B
+                return ast.copy_location(ast.BoolOp(op=ast.Or(), values=[test, b]), test)
+            if const(a, False):       # False if c else B  ==  not c and B
+                return ast.copy_location(ast.BoolOp(op=ast.And(), values=[neg(test), b]), test)
+            if const(b, True):        # A if c else True  ==  not c or A
+                return ast.copy_location(ast.BoolOp(op=ast.Or(), values=[neg(test), a]), test)
+            if const(b, False):       # A if c else False  ==  c and A
+                return ast.copy_location(ast.BoolOp(op=ast.And(), values=[test, a]), test)
         return ast.copy_location(ast.IfExp(test=test, body=a, orelse=b), test)
 
     # -- statement-level expansion ---------------------------------------------------------------------
